@@ -206,8 +206,12 @@ Fixpoint hex_fixed (d : nat) (v : Z) (acc : name) : name :=
   end.
 Definition ndigits (v : Z) : nat := if v <=? 0 then 1%nat else Z.to_nat (Z.log2 v / 4 + 1).
 Definition hex_min (d : nat) (v : Z) : name := hex_fixed (Nat.max d (ndigits v)) v [].
+(* `{:01$x}` pads with zeros, `{:1$x}` with spaces, to at least the width argument *)
+Definition hex_padded (zero : bool) (d : nat) (v : Z) : name :=
+  if zero then hex_min d v
+  else repeat 32 (d - ndigits v) ++ hex_fixed (ndigits v) v [].
 Definition format_value (c : ctx_table) (v : Z) : name :=
-  48 :: 120 :: hex_min (Z.to_nat (register_size c * 2)) v.
+  ct_fmt_prefix c ++ hex_padded (ct_fmt_zero c) (Z.to_nat (register_size c * ct_fmt_mul c)) v.
 Definition format_register (c : ctx_table) (rf : regfile) (n : name) : outcome name :=
   do x <- get_always c rf n; Ret (format_value c x).
 (* the value a rendering denotes (inverse of hex_fixed on digit strings) *)
